@@ -63,27 +63,27 @@ type abortPath struct{ reason string }
 
 // Exec verifies one function against its contract.
 type Exec struct {
-	w           *World
-	fn          *ssa.Function
-	sel         string
-	con         *Contract
-	d           *Decls
-	obs         []*Obligation
-	entry       *State
-	ifacePreds  map[string]types.Type
-	assumptions map[string]bool
-	unsupported map[string]bool
-	paths       int
-	maxPaths    int
-	loopInfos   map[*ssa.Function]*LoopInfo
-	strLits     map[string]Term
-	siteOrd     map[ssa.Instruction]int
-	kindCount   map[string]int
-	coverCount  map[string]int
-	obSeen      map[string]bool
-	callOrds    map[*ssa.Function]map[ssa.Instruction]int
-	returns     int
-	safetyOnly  bool
+	w            *World
+	fn           *ssa.Function
+	sel          string
+	con          *Contract
+	d            *Decls
+	obs          []*Obligation
+	entry        *State
+	ifacePreds   map[string]types.Type
+	assumptions  map[string]bool
+	unsupported  map[string]bool
+	paths        int
+	maxPaths     int
+	loopInfos    map[*ssa.Function]*LoopInfo
+	strLits      map[string]Term
+	siteOrd      map[ssa.Instruction]int
+	kindCount    map[string]int
+	coverCount   map[string]int
+	obSeen       map[string]bool
+	callOrds     map[*ssa.Function]map[ssa.Instruction]int
+	returns      int
+	safetyOnly   bool
 	uncontracted map[string]bool
 	specErrors   map[string]bool
 	entryBinds   map[string]TT
